@@ -18,6 +18,8 @@
 //!   S   fake FS: every 1-line tree x style with the root file itself named through `dir/../dir/./main.ledger`
 //!   G   fake+real FS: the other glob metacharacters `[0-9]` `[ab]` `[!x]` `?` (8 styles: same dir / sub-dir), with
 //!       decoy siblings the class must not match; GN: such a pattern matching only its decoys must fail
+//!   T   fake+real FS: the SAME relative include text (literal, ./x, ./x/../y, sub/x, *-, class-, ?-glob, sub/*) in 2 or 3
+//!       sibling directories d1/ d2/ d3/ holding files of the same relative names; same text along a chain
 //!   N   fake FS: an include that matches nothing (every 1-line tree x style; nested 2-line shapes x uniform style)
 //!   C   fake FS: recursive include (chain depth k, back edge to ancestor j, chain style, back-edge spelling)
 //!   X   fake FS: the same file included twice through two different spellings (sequence is DON'T-CARE)
@@ -44,7 +46,7 @@ pub const DEF: CheckDef = CheckDef {
     id: "C11",
     run,
     technique: "bounded-exhaustive enumeration of include trees: one order-sensitive 6-entry ledger cut at every subset of its 5 entry boundaries and hung into every include tree (own entries may surround include lines; one include line may glob several sibling files) within depth/line bounds x every assignment of 10 path styles to the include lines, plus 8 further styles for the remaining glob metacharacters ([0-9], [ab], [!x], ? in the same and in a sub-directory); the real Loader (FakeFileSystem and real file system) and the real report/CLI code run on every tree and are compared with the unsplit ledger",
-    rule: "case = (tree shape, path style per include line[, file system, creation order, root spelling]). quick: depth <= 2 and <= 2 include lines x all style assignments, plus all 48 097 shapes of depth <= 2 x 4 uniform style families; thorough: depth <= 3 and <= 3 lines x all style assignments, plus all 383 084 shapes of depth <= 3 x 10 uniform style families. Styles: same dir, sub-dir, ../, ./x/../y, absolute, glob prefix*, glob *suffix, glob sub/*.ledger, glob ../*suffix, glob over several directories */m.dat; family G adds rN_[0-9].dat, sN_[ab..].dat, [!x]_nN.dat, ?_qN.dat (same dir and mN/ sub-dir, the first three without any * or ?) with siblings the class must not match: quick every 1-line tree x 8 and every 2-line shape x 8 uniform, thorough every <=2-line shape x every assignment over all 18 styles using one of them; a dot-file (dot-directory) holding an unbalanced transaction sits next to every glob; FakeFileSystem returns glob matches reverse-sorted; on the real FS files are created in two scrambled orders. Further families: include matching nothing (must fail), recursive include (must fail, not crash), identical include twice and diamond (must not be reported as recursive), two spellings of one file (DON'T-CARE). states = trees executed, transitions = loader/report/CLI runs compared with the unsplit ledger",
+    rule: "case = (tree shape, path style per include line[, file system, creation order, root spelling]). quick: depth <= 2 and <= 2 include lines x all style assignments, plus all 48 097 shapes of depth <= 2 x 4 uniform style families; thorough: depth <= 3 and <= 3 lines x all style assignments, plus all 383 084 shapes of depth <= 3 x 10 uniform style families. Styles: same dir, sub-dir, ../, ./x/../y, absolute, glob prefix*, glob *suffix, glob sub/*.ledger, glob ../*suffix, glob over several directories */m.dat; family G adds rN_[0-9].dat, sN_[ab..].dat, [!x]_nN.dat, ?_qN.dat (same dir and mN/ sub-dir, the first three without any * or ?) with siblings the class must not match: quick every 1-line tree x 8 and every 2-line shape x 8 uniform, thorough every <=2-line shape x every assignment over all 18 styles using one of them; a dot-file (dot-directory) holding an unbalanced transaction sits next to every glob; FakeFileSystem returns glob matches reverse-sorted; on the real FS files are created in two scrambled orders. family T: every twin shape (root -> 2 or 3 year files d1/year.dat.. by literal lines or one glob d*/year.dat, each with own entries around ONE include line over leaf files) x 9 include texts that are IDENTICAL in every directory (part.dat, ./part.dat, ./x/../part.dat, sub/part.dat, *_p.dat, p_[0-9].dat, ?_q.dat, sub/*.ledger, sub/p_[0-9].dat), 3 538 shapes / 23 954 trees on the fake FS, 1 720 (thorough 23 954) on the real FS, plus chains whose every line says the same sub-directory text. Further families: include matching nothing (must fail), recursive include (must fail, not crash), identical include twice and diamond (must not be reported as recursive), two spellings of one file (DON'T-CARE). states = trees executed, transitions = loader/report/CLI runs compared with the unsplit ledger",
     assumptions: &[
         "entry identity = PartialEq of syntax::plain::LedgerEntry against the parsed unsplit ledger; report identity = bytes of the balance/register lines (same formatting code as cli BalanceCmd/RegisterCmd on FakeFileSystem, the real CLI in-process on the real file system)",
         "file names inside one glob are single-digit keys, so every reasonable notion of 'sorted path order' agrees; component-wise vs byte-wise order of multi-directory matches, case folding, symlinks and non-UTF-8 names are not exercised",
@@ -102,6 +104,9 @@ enum Style {
     SubClsSet,
     SubClsNeg,
     SubQmark,
+    // labels for the lines of family T (identical include text in sibling directories); never tallied per style
+    TwinLit,
+    TwinGlob,
 }
 use Style::*;
 /// the styles of the main families
@@ -116,7 +121,7 @@ const EVERY_GLOB: [Style; 13] = [GlobPrefix, GlobStar, GlobSub, GlobUp, GlobDirs
 
 impl Style {
     fn is_glob(self) -> bool {
-        !matches!(self, Same | Sub | Up | DotMix | Abs)
+        !matches!(self, Same | Sub | Up | DotMix | Abs | TwinLit)
     }
     fn is_meta(self) -> bool {
         META.contains(&self)
@@ -475,6 +480,7 @@ impl<'a> Builder<'a> {
                             let decoys = decoys.into_iter().map(|d| format!("{}/{}", cdir, d)).collect();
                             (cdir, format!("{}{}", pre, pat), names, decoys)
                         }
+                        TwinLit | TwinGlob => panic!("harness bug: family-T label used as a layout style"),
                     };
                     content.push_str(&format!("include {}\n\n", text));
                     for h in &hidden {
@@ -767,6 +773,8 @@ fn judge_sequence(fs: &str, l: &Laid, b: &Baseline, seen: &Seen, res: &Result<()
         s
     };
     let _ = b;
+    // family T: the tree repeats one include text in different directories
+    let tw = if l.lines.iter().any(|x| matches!(x.style, TwinLit | TwinGlob)) { "/same-text-in-several-directories" } else { "" };
     if seen.include_delivered {
         return Some(Outcome::violation(format!("include-line-delivered/{}", fs), show()));
     }
@@ -786,7 +794,7 @@ fn judge_sequence(fs: &str, l: &Laid, b: &Baseline, seen: &Seen, res: &Result<()
     if let Err(e) = res {
         let v = load_err_variant(e);
         let hay = format!("{:?} {}", e, e);
-        return Some(Outcome::violation(format!("split-load-fails/{}/{}/{}", fs, v, culprit_by_text(l, &hay)), show()));
+        return Some(Outcome::violation(format!("split-load-fails/{}/{}/{}{}", fs, v, culprit_by_text(l, &hay), tw), show()));
     }
     if got != expect {
         let mut a = got.clone();
@@ -796,13 +804,13 @@ fn judge_sequence(fs: &str, l: &Laid, b: &Baseline, seen: &Seen, res: &Result<()
         if a == c {
             let first = got.iter().zip(expect.iter()).position(|(x, y)| x != y).unwrap();
             let kind = if l.in_group.contains(&l.expect[first].0) { "inside-glob-group" } else { "around-include-line" };
-            return Some(Outcome::violation(format!("order-changed/{}/{}", fs, kind), show()));
+            return Some(Outcome::violation(format!("order-changed/{}/{}{}", fs, kind, tw), show()));
         }
-        return Some(Outcome::violation(format!("entries-lost-or-duplicated/{}", fs), show()));
+        return Some(Outcome::violation(format!("entries-lost-or-duplicated/{}{}", fs, tw), show()));
     }
     for (i, (p, _)) in seen.entries.iter().enumerate() {
         if norm(p) != l.files[l.expect[i].0].0 {
-            return Some(Outcome::violation(format!("entry-attributed-to-wrong-file/{}", fs), show()));
+            return Some(Outcome::violation(format!("entry-attributed-to-wrong-file/{}{}", fs, tw), show()));
         }
     }
     None
@@ -820,7 +828,8 @@ fn tree_class(l: &Laid, depth: usize) -> String {
         "mixed"
     };
     let multi = if l.lines.iter().any(|x| x.multi) { "+multi" } else { "" };
-    format!("depth{}/{}{}", depth, kind, multi)
+    let twin = if l.lines.iter().any(|x| matches!(x.style, TwinLit | TwinGlob)) { "same-text/" } else { "" };
+    format!("{}depth{}/{}{}", twin, depth, kind, multi)
 }
 
 fn fake_files(l: &Laid) -> Vec<(&str, &str)> {
@@ -921,6 +930,152 @@ fn chain_shape(k: usize) -> &'static str {
         3 => "E[E[E[E]E]E]",
         _ => panic!("harness bug: chain depth"),
     }
+}
+
+// ------------------------------------------------------------------------------------------
+// Family T: the SAME relative include text in different directories
+
+/// The include text every non-outer line of a family-T tree carries (identical in every directory).
+#[derive(Clone, Copy, Debug, PartialEq, Eq)]
+enum Inner {
+    Lit,
+    DotLit,
+    DotMixLit,
+    SubLit,
+    Star,
+    Cls,
+    Qm,
+    SubStar,
+    SubCls,
+}
+const INNERS: [Inner; 9] = [Inner::Lit, Inner::DotLit, Inner::DotMixLit, Inner::SubLit, Inner::Star, Inner::Cls, Inner::Qm, Inner::SubStar, Inner::SubCls];
+const INNERS_SUB: [Inner; 3] = [Inner::SubLit, Inner::SubStar, Inner::SubCls];
+
+impl Inner {
+    fn is_glob(self) -> bool {
+        matches!(self, Inner::Star | Inner::Cls | Inner::Qm | Inner::SubStar | Inner::SubCls)
+    }
+    /// (include text, member names relative to the including directory, decoys, directories that must exist)
+    fn spec(self, n: usize) -> (String, Vec<String>, Vec<String>, Vec<String>) {
+        let key = |k: usize| (b'1' + k as u8) as char;
+        let v = |x: &[&str]| x.iter().map(|y| y.to_string()).collect::<Vec<String>>();
+        match self {
+            Inner::Lit => ("part.dat".into(), v(&["part.dat"]), vec![], vec![]),
+            Inner::DotLit => ("./part.dat".into(), v(&["part.dat"]), vec![], vec![]),
+            Inner::DotMixLit => ("./x/../part.dat".into(), v(&["part.dat"]), vec![], v(&["x"])),
+            Inner::SubLit => ("sub/part.dat".into(), v(&["sub/part.dat"]), vec![], vec![]),
+            Inner::Star => ("*_p.dat".into(), (0..n).map(|k| format!("{}_p.dat", key(k))).collect(), v(&[".0_p.dat"]), vec![]),
+            Inner::Cls => ("p_[0-9].dat".into(), (0..n).map(|k| format!("p_{}.dat", key(k))).collect(), v(&["p_x.dat"]), vec![]),
+            Inner::Qm => ("?_q.dat".into(), (0..n).map(|k| format!("{}_q.dat", key(k))).collect(), v(&["10_q.dat", "._q.dat"]), vec![]),
+            Inner::SubStar => ("sub/*.ledger".into(), (0..n).map(|k| format!("sub/{}.ledger", key(k))).collect(), v(&["sub/.hidden.ledger"]), vec![]),
+            Inner::SubCls => ("sub/p_[0-9].dat".into(), (0..n).map(|k| format!("sub/p_{}.dat", key(k))).collect(), v(&["sub/p_x.dat"]), vec![]),
+        }
+    }
+}
+
+/// Is `shape` a twin shape? The root holds either k in {2,3} include lines with one child each, or one include line
+/// with k children; every such child ("year file") holds exactly one include line whose children are leaves.
+/// Returns (k, the root uses one glob, every inner line has exactly one child).
+fn twin_shape(n: &Node) -> Option<(usize, bool, bool)> {
+    let incs: Vec<&Vec<Node>> = n.items.iter().filter_map(|i| if let Item::Inc(c) = i { Some(c) } else { None }).collect();
+    let (years, glob): (Vec<&Node>, bool) = if incs.len() == 1 && incs[0].len() >= 2 {
+        (incs[0].iter().collect(), true)
+    } else if incs.len() >= 2 && incs.iter().all(|c| c.len() == 1) {
+        (incs.iter().map(|c| &c[0]).collect(), false)
+    } else {
+        return None;
+    };
+    if years.len() > 3 {
+        return None;
+    }
+    let mut single = true;
+    for y in &years {
+        let inner: Vec<&Vec<Node>> = y.items.iter().filter_map(|i| if let Item::Inc(c) = i { Some(c) } else { None }).collect();
+        if inner.len() != 1 || inner[0].iter().any(|leaf| count_lines(leaf) != 0) {
+            return None;
+        }
+        single &= inner[0].len() == 1;
+    }
+    Some((years.len(), glob, single))
+}
+
+struct FixedBuilder<'a> {
+    base: &'a str,
+    kind: Inner,
+    twin: bool,
+    l: Laid,
+}
+
+impl<'a> FixedBuilder<'a> {
+    fn lay(&mut self, node: &Node, dir: &str, path: String, level: usize) -> usize {
+        let fidx = self.l.files.len();
+        self.l.files.push((path, String::new()));
+        let mut content = String::new();
+        let mut outer_seen = 0usize;
+        for it in &node.items {
+            match it {
+                Item::E(i) => {
+                    content.push_str(ENTRIES[*i]);
+                    self.l.expect.push((fidx, *i));
+                }
+                Item::Inc(children) => {
+                    let n = children.len();
+                    let (style, text, names, decoys, xdirs): (Style, String, Vec<String>, Vec<String>, Vec<String>) = if self.twin && level == 0 {
+                        if n == 1 {
+                            // literal outer line number j: directory d<j>
+                            outer_seen += 1;
+                            let t = format!("d{}/year.dat", outer_seen);
+                            (TwinLit, t.clone(), vec![t], vec![], vec![])
+                        } else {
+                            (TwinGlob, "d*/year.dat".to_string(), (0..n).map(|k| format!("d{}/year.dat", k + 1)).collect(), vec![".d0/year.dat".to_string()], vec![])
+                        }
+                    } else {
+                        let (t, names, decoys, xd) = self.kind.spec(n);
+                        (if self.kind.is_glob() { TwinGlob } else { TwinLit }, t, names, decoys, xd)
+                    };
+                    assert!(names.len() == n, "harness bug: literal same-text include with several children");
+                    content.push_str(&format!("include {}\n\n", text));
+                    let decoys: Vec<String> = decoys.iter().map(|d| format!("{}/{}", dir, d)).collect();
+                    for h in &decoys {
+                        self.l.hidden.insert(h.clone(), HIDDEN.to_string());
+                    }
+                    for x in xdirs {
+                        self.l.dirs.insert(format!("{}/{}", dir, x));
+                    }
+                    self.l.lines.push(Line { style, text, hidden: decoys, multi: n > 1 });
+                    let mut members = vec![];
+                    for (k, ch) in children.iter().enumerate() {
+                        let cpath = format!("{}/{}", dir, names[k]);
+                        members.push(self.lay(ch, &parent_dir(&cpath), cpath, level + 1));
+                    }
+                    if n > 1 {
+                        for m in &members {
+                            self.l.in_group.insert(*m);
+                        }
+                        self.l.groups.push(members);
+                    }
+                }
+            }
+        }
+        self.l.files[fidx].1 = content;
+        fidx
+    }
+}
+
+/// twin = true: `shape` is a twin shape, the year files live in d1/, d2/(, d3/) and all carry the same inner include text;
+/// twin = false: every include line of `shape` (a chain) carries the same text, resolving one directory deeper each time.
+fn layout_fixed(shape: &str, kind: Inner, twin: bool, base: &str) -> Laid {
+    let node = parse_shape(shape);
+    let rd = root_dir(base);
+    let root = format!("{}/main.ledger", rd);
+    let mut b = FixedBuilder { base, kind, twin, l: Laid { root: root.clone(), files: vec![], hidden: BTreeMap::new(), dirs: BTreeSet::new(), expect: vec![], lines: vec![], groups: vec![], in_group: BTreeSet::new(), nomatch: None } };
+    b.lay(&node, &rd, root, 0);
+    let _ = b.base;
+    // the point of the family: at least two include lines in different directories carry the same text
+    let mut texts: Vec<&str> = b.l.lines.iter().map(|x| x.text.as_str()).collect();
+    texts.sort();
+    assert!(texts.windows(2).any(|w| w[0] == w[1]), "harness bug: no repeated include text in a same-text layout");
+    b.l
 }
 
 /// chain of depth k (file i includes file i+1 with `style`); file `from` gets a further include of file `to`
@@ -1310,6 +1465,45 @@ fn run_inner(ctx: &mut Ctx) {
         });
     }
     ctx.fact("family_GN_trees", n_gn);
+
+    // ---- T: the SAME relative include text in 2 or 3 sibling directories (fake FS) ----
+    //  every twin shape (root -> k year files in d1..dk, by k literal lines or one glob d*/year.dat; each year file has
+    //  own entries around ONE include line with leaf children) x 9 inner texts (literal kinds need one child per line);
+    //  plus chains of depth 2..3 in which every line carries the same sub-directory text.
+    let twin_shapes: Vec<(&String, usize, bool, bool)> = all_shapes
+        .iter()
+        .filter(|s| s.1 >= 3 && s.1 <= 6 && shape_depth(&s.0) == 2)
+        .filter_map(|s| twin_shape(&parse_shape(&s.0)).map(|(k, g, single)| (&s.0, k, g, single)))
+        .collect();
+    ctx.fact("family_T_twin_shapes", twin_shapes.len() as u64);
+    ctx.fact("family_T_twin_shapes_with_3_directories", twin_shapes.iter().filter(|t| t.1 == 3).count() as u64);
+    let mut n_t = 0u64;
+    for (shape, _k, _g, single) in &twin_shapes {
+        for kind in INNERS {
+            if !kind.is_glob() && !single {
+                continue;
+            }
+            n_t += 1;
+            if !ctx.next_is_mine() {
+                ctx.skip_cases(1);
+                continue;
+            }
+            let l = layout_fixed(shape, kind, true, FAKE_BASE);
+            ctx.case(|| format!("[T fake FS] twin shape {} inner text {:?}\n{}", shape, kind, render(&l)), || judge_fake_split(&b, &l, 2, 0));
+        }
+    }
+    for k in 2..=3usize {
+        for kind in INNERS_SUB {
+            n_t += 1;
+            if !ctx.next_is_mine() {
+                ctx.skip_cases(1);
+                continue;
+            }
+            let l = layout_fixed(chain_shape(k), kind, false, FAKE_BASE);
+            ctx.case(|| format!("[T fake FS] chain {} every line says {:?}\n{}", chain_shape(k), kind, render(&l)), || judge_fake_split(&b, &l, k, 0));
+        }
+    }
+    ctx.fact("family_T_trees", n_t);
     fake_tally.emit(ctx, "fake");
 
     // ---- N: include that matches nothing (fake FS) ----
@@ -1511,6 +1705,48 @@ fn run_inner(ctx: &mut Ctx) {
         }
     }
     let _ = (grp3, grp3_scrambled);
+    // RT: family T on the real FS (loader + CLI), creation order 0; quick: only the twin shapes in which all entries
+    // sit in the leaf files (root and year files hold include lines only), thorough: all twin shapes
+    let mut n_rt = 0u64;
+    let leaves_only = |shape: &str| -> bool {
+        // no E at nesting depth 0 or 1
+        let mut d = 0;
+        for c in shape.bytes() {
+            match c {
+                b'[' => d += 1,
+                b']' => d -= 1,
+                b'E' if d < 2 => return false,
+                _ => {}
+            }
+        }
+        true
+    };
+    for (shape, _k, _g, single) in twin_shapes.iter().filter(|t| max_depth >= 3 || leaves_only(t.0)) {
+        for kind in INNERS {
+            if !kind.is_glob() && !single {
+                continue;
+            }
+            n_rt += 1;
+            if !ctx.next_is_mine() {
+                ctx.skip_cases(1);
+                continue;
+            }
+            let l = layout_fixed(shape, kind, true, &real_base);
+            ctx.case(|| format!("[RT real FS] twin shape {} inner text {:?}\n{}", shape, kind, render(&l)).replace(&env.scratch, "<scratch>"), || judge_real_split(&env, &b, &l, 2, 0, 0));
+        }
+    }
+    for k in 2..=3usize {
+        for kind in INNERS_SUB {
+            n_rt += 1;
+            if !ctx.next_is_mine() {
+                ctx.skip_cases(1);
+                continue;
+            }
+            let l = layout_fixed(chain_shape(k), kind, false, &real_base);
+            ctx.case(|| format!("[RT real FS] chain {} every line says {:?}\n{}", chain_shape(k), kind, render(&l)).replace(&env.scratch, "<scratch>"), || judge_real_split(&env, &b, &l, k, 0, 0));
+        }
+    }
+    ctx.fact("family_RT_cases", n_rt);
     // RG: the other glob metacharacters on the real FS: every 1-line tree x 8 meta styles x 2 creation orders;
     // (thorough) every 2-line shape x 8 uniform meta styles
     for (shape, lines) in all_shapes.iter().filter(|s| s.1 == 1 || (max_depth >= 3 && s.1 == 2)) {
